@@ -230,6 +230,8 @@ def check_hybrid_view(meta, files, pl, single, name):
         else:
             if len(stream) % pl:
                 return f"file {e[b'path']!r} starts at offset {len(stream)} not on a piece boundary"
+            if tuple(e[b"path"]) not in want:
+                return f"the file list names {e[b'path']!r}, which is not a file of the payload"
             data = want[tuple(e[b"path"])].bytes()
             if len(data) != e[b"length"]:
                 return "entry length differs from file"
